@@ -145,9 +145,9 @@ def _torn(rng, uni):
 
 
 def generate(rng, tier, index):
-    ir = G.gen_schema(rng, {"handlers": False})
+    ir, lines = G.gen_pair(rng, {"handlers": False},
+                           {"full": rng.choice([0.5, 0.8, 1.0])})
     xml = G.render_schema(ir)
-    lines = G.gen_text(rng, ir, {"full": rng.choice([0.5, 0.8, 1.0])})
     uni = layout.cut(rng, lines, ncuts=rng.choice([1, 1, 2, 3]), decoys=True)
     variant = rng.choice(["plain", "plain", "plain", "invalid", "invalid",
                           "torn-cut", "missing-fragment", "open-fault"])
